@@ -130,20 +130,35 @@ pub fn specials() -> Vec<(String, Vec<u8>)> {
     out.push(("encrypt-no-id".into(), base(vec![(4, dict(vec![("Filter", name("Standard")), ("V", Obj::Int(1)), ("R", Obj::Int(2)), ("O", o32.clone()), ("U", o32.clone()), ("P", Obj::Int(-1))]))], vec![("Encrypt", rf(4))])));
     out.push(("encrypt-ref-self".into(), base(vec![(4, rf(4))], vec![("Encrypt", rf(4)), ("ID", arr(vec![st("a"), st("b")]))])));
     // --- filters with hostile parameters on a page's content stream and an image
-    let filt = |label: &str, f: Obj, parms: Obj, data: &[u8], out: &mut Vec<(String, Vec<u8>)>| {
+    // `dims`: image /Width and /Height (the CCITT reader insists on /Width == /Columns before it decodes)
+    let filt_dims = |label: &str, f: Obj, parms: Obj, data: &[u8], dims: (i64, i64), out: &mut Vec<(String, Vec<u8>)>| {
         let mut o = sk.clone(); o[2].1.set("Contents", rf(4)); o[2].1.set("Resources", dict(vec![("XObject", dict(vec![("I", rf(5))]))]));
         o.push((4, stream(vec![("Filter", f.clone()), ("DecodeParms", parms.clone())], data)));
-        o.push((5, stream(vec![("Type", name("XObject")), ("Subtype", name("Image")), ("Width", Obj::Int(1)), ("Height", Obj::Int(1)), ("BitsPerComponent", Obj::Int(8)), ("ColorSpace", name("DeviceGray")), ("Filter", f), ("DecodeParms", parms)], data)));
+        o.push((5, stream(vec![("Type", name("XObject")), ("Subtype", name("Image")), ("Width", Obj::Int(dims.0)), ("Height", Obj::Int(dims.1)), ("BitsPerComponent", Obj::Int(8)), ("ColorSpace", name("DeviceGray")), ("Filter", f), ("DecodeParms", parms)], data)));
         out.push((label.to_string(), mkpdf::simple_doc(&o, 1, vec![])));
     };
+    let filt = |label: &str, f: Obj, parms: Obj, data: &[u8], out: &mut Vec<(String, Vec<u8>)>| filt_dims(label, f, parms, data, (1, 1), out);
     let z = miniz_oxide::deflate::compress_to_vec_zlib(&vec![0u8; 5000], 6);
     for (pred, colors, bpc, cols) in [(12i64, 1i64, 8i64, 2147483647i64), (12, 2147483647, 8, 1), (12, 65536, 16, 65536), (15, 0, 8, 1), (12, 1, 0, 1), (12, 1, 7, 5), (12, -1, 8, 5), (12, 1, 8, -1), (2, 1, 8, 0), (2, 4, 16, 1 << 30), (2, 3, 1, 7), (10, 1, 8, 4999), (1 << 31, 1, 8, 1), (-12, 1, 8, 1)] {
         let p = dict(vec![("Predictor", Obj::Int(pred)), ("Colors", Obj::Int(colors)), ("BitsPerComponent", Obj::Int(bpc)), ("Columns", Obj::Int(cols))]);
         filt(&format!("flate-pred{}-c{}-b{}-w{}", pred, colors, bpc, cols), name("FlateDecode"), p.clone(), &z, &mut out);
         filt(&format!("lzw-pred{}-c{}-b{}-w{}", pred, colors, bpc, cols), name("LZWDecode"), p, &[0x80, 0x0b, 0x60, 0x50, 0x22, 0x0c, 0x0c, 0x85, 0x01], &mut out);
     }
-    for (k, cols, rows) in [(-1i64, 0i64, 0i64), (-1, 2147483647, 2147483647), (-1, 65535, 65535), (-1, 1, 0), (0, 1728, 0), (5, 8, 8), (-1, -1, -1), (-1, 70000, 2)] {
+    for (k, cols, rows) in [(-1i64, 0i64, 0i64), (-1, 2147483647, 2147483647), (-1, 65535, 2048), (-1, 65536, 65536), (-1, 1, 0), (0, 1728, 0), (5, 8, 8), (-1, -1, -1), (-1, 70000, 2)] {
         filt(&format!("ccitt-k{}-c{}-r{}", k, cols, rows), name("CCITTFaxDecode"), dict(vec![("K", Obj::Int(k)), ("Columns", Obj::Int(cols)), ("Rows", Obj::Int(rows))]), &[0x26, 0xa0, 0x00, 0x10, 0x01, 0xff, 0xff, 0x00], &mut out);
+        // the same geometry with data the Group 4 decoder accepts (an end-of-block marker alone; lines equal to the white reference
+        // line), on an image whose /Width equals /Columns so that the decoder is reached
+        let p = || dict(vec![("K", Obj::Int(k)), ("Columns", Obj::Int(cols)), ("Rows", Obj::Int(rows))]);
+        for h in [1i64, rows.max(0), 0] {
+            filt_dims(&format!("ccitt-garbage-k{}-c{}-r{}-h{}", k, cols, rows, h), name("CCITTFaxDecode"), p(), &[0x26, 0xa0, 0x00, 0x10, 0x01, 0xff, 0xff, 0x00], (cols, h), &mut out);
+            filt_dims(&format!("ccitt-eofb-k{}-c{}-r{}-h{}", k, cols, rows, h), name("CCITTFaxDecode"), p(), &[0x00, 0x10, 0x01], (cols, h), &mut out);
+            filt_dims(&format!("ccitt-v0-lines-k{}-c{}-r{}-h{}", k, cols, rows, h), name("CCITTFaxDecode"), p(), &[0xff, 0xff, 0x00, 0x10, 0x01], (cols, h), &mut out);
+        }
+    }
+    for cols in [0i64, 1, 7, 8, 9, 65535, 65536, 65544] {
+        for h in [1i64, 2, 1000] {
+            filt_dims(&format!("ccitt-v0-lines-only-columns{}-h{}", cols, h), name("CCITTFaxDecode"), dict(vec![("K", Obj::Int(-1)), ("Columns", Obj::Int(cols))]), &[0xff, 0xff, 0x00, 0x10, 0x01], (cols, h), &mut out);
+        }
     }
     filt("dct-garbage", name("DCTDecode"), Obj::Null, &[0xff, 0xd8, 0xff, 0xe0, 0, 16, b'J', b'F', b'I', b'F', 0, 1, 1, 0, 0, 1, 0, 1, 0, 0, 0xff, 0xd9], &mut out);
     filt("dct-sof-huge", name("DCTDecode"), Obj::Null, &[0xff, 0xd8, 0xff, 0xc0, 0, 11, 8, 0xff, 0xff, 0xff, 0xff, 1, 1, 0x11, 0, 0xff, 0xd9], &mut out);
